@@ -205,7 +205,10 @@ int main (int argc, char **argv) {
           if (write(fd, body, end - body) < 0) {}
           close(fd);
           str = sexp_c_string(ctx, tmpl, -1);
-          res = sexp_load(ctx, str, NULL);
+          /* like evalscratch: what a loaded file *successfully* defines must not leak into the probe */
+          env = sexp_make_env(ctx);
+          sexp_env_parent(env) = sexp_context_env(ctx);
+          res = sexp_load(ctx, str, env);
           unlink(tmpl);
         } else res = SEXP_VOID;
       } else if (!strcmp(mode, "evalscratch")) {
